@@ -283,7 +283,7 @@ class CharsetTokenizer(Tokenizer):
                 currentchar += 1
 
             if currentchar > startchar:
-                t.text = value[startchar:currentchar]
+                t.text = text
                 t.boost = 1.0
                 if keeporiginal:
                     t.original = t.text
